@@ -201,7 +201,7 @@ pub struct Attempt {
 
 #[derive(Clone, Debug, Serialize)]
 pub enum RecvOutcome {
-    Msg { val: Val, size: usize, view_len: usize, occupied: usize, revalidates: bool, retained: bool, drop_panic: Option<String> },
+    Msg { val: Val, size: usize, view_len: usize, occupied: usize, revalidates: bool, retained: bool, drop_panic: Option<String>, invalid: Option<String> },
     Parse(String),
     ReadErr(String),
     Closed,
@@ -455,7 +455,7 @@ impl World {
             if self.in_send {
                 let a = self.attempts.last_mut().unwrap();
                 a.calls += 1;
-                let budget = 2 * a.frame_len as u32 + a.nonprogress + 16;
+                let budget = 4 * a.frame_len as u32 + 4 * a.nonprogress + 64;
                 if a.calls > budget {
                     let d = format!(
                         "send() of a {}-byte message made {} pipe calls (budget {}), {} bytes accepted: no bounded termination",
@@ -470,7 +470,7 @@ impl World {
             let cap = self.recv_capacity as u32;
             let r = self.recvs.last_mut().unwrap();
             r.calls += 1;
-            let budget = cap + r.nonprogress + 16;
+            let budget = 2 * cap + 4 * r.nonprogress + 64;
             if r.calls > budget {
                 let d = format!("recv() made {} pipe calls (budget {}): spinning", r.calls, budget);
                 self.violate("", "T1-termination", "hang:pipe-call-budget", "recv", d);
@@ -536,7 +536,7 @@ impl World {
                 match k {
                     1 => {
                         let persistent = self.dec.chance(St::WFault, self.knobs.p_persist, 1024);
-                        let kind = self.pick_err_kind(St::WFault, !persistent);
+                        let kind = self.pick_err_kind(St::WFault, true);
                         self.faults_fired += 1;
                         if persistent {
                             self.persistent_w = Some(kind);
@@ -607,7 +607,11 @@ impl World {
                     if self.in_send {
                         if k == io::ErrorKind::Interrupted {
                             a.saw_interrupted = true;
-                            a.nonprogress += 1;
+                            // a transient Interrupted may legitimately be retried (bounded);
+                            // one that persists must still end the call within the budget
+                            if !persistent {
+                                a.nonprogress += 1;
+                            }
                         } else {
                             a.saw_fail = true;
                         }
@@ -653,7 +657,7 @@ impl World {
             self.ev(party, Op::Write, Out::Ok, 0, 0);
             return Ok(0);
         }
-        let boundary = self.attempts.last().filter(|_| self.in_send).map(|a| a.frame_len - a.accepted);
+        let boundary = self.attempts.last().filter(|_| self.in_send).map(|a| a.frame_len.saturating_sub(a.accepted));
         let at = self.pipe.accepted_total;
         let n = match self.split_w {
             Some(sp) if sp > at && sp - at < offered => sp - at,
@@ -716,7 +720,7 @@ impl World {
                 match k {
                     1 => {
                         let persistent = self.dec.chance(St::RFault, self.knobs.p_persist, 1024);
-                        let kind = self.pick_err_kind(St::RFault, !persistent);
+                        let kind = self.pick_err_kind(St::RFault, true);
                         self.faults_fired += 1;
                         if persistent {
                             self.persistent_r = Some(kind);
@@ -752,7 +756,9 @@ impl World {
                         if k != io::ErrorKind::Interrupted {
                             r.saw_err_hard = true;
                         }
-                        r.nonprogress += 1;
+                        if !persistent {
+                            r.nonprogress += 1;
+                        }
                     }
                 }
                 self.probe(P::r_err);
